@@ -382,7 +382,7 @@ class DiagLayer:
         for service in candidate_services:
             try:
                 decoded_messages.append(service.decode_message(message))
-            except DecodeError as e:
+            except DecodeError:
                 # check if the message can be decoded as a global
                 # negative response for the service
                 gnr_found = False
@@ -406,7 +406,10 @@ class DiagLayer:
                         pass
 
                 if not gnr_found:
-                    raise e
+                    # the message cannot be interpreted using this
+                    # service, but it might be using one of the other
+                    # candidates
+                    continue
 
         if len(decoded_messages) == 0:
             raise DecodeError(
